@@ -108,18 +108,27 @@ def readout_record(ro) -> dict:
         err.append(type(ex).__name__)
     # the verdict must not depend on which other accessors were used before: touch them, then ask again
     valid2 = valid
+    acc = {"seen": False, "exp": -3, "end": [], "endraised": False}
     if hasattr(type(ro), "identification_line"):
         for name in ("identification_line", "expected_checksum", "end_line", "data_lines"):
             try:
-                getattr(ro, name)
+                v = getattr(ro, name)
+                if name == "expected_checksum":
+                    acc["exp"] = -1 if v is None else (int(v) if 0 <= int(v) < 2 ** 31 else -3)
+                elif name == "end_line":
+                    acc["end"] = list(str(v).encode("latin1", "replace"))
             except Exception:  # noqa: BLE001 (these accessors are not covered by C14)
-                pass
+                if name == "expected_checksum":
+                    acc["exp"] = -2
+                elif name == "end_line":
+                    acc["endraised"] = True
+        acc["seen"] = len(o) < 3000         # growth clause only for readouts of moderate size
         try:
             valid2 = bool(ro.is_valid)
         except Exception as ex:  # noqa: BLE001
             valid2, verr = False, verr or type(ex).__name__
     return {"o": list(o), "valid": valid, "valid2": valid2, "vraised": verr, "payload": list(payload or b""), "raised": err[0] if err else "",
-            "stable": True}
+            "stable": True, "acc": acc}
 
 
 def record_run(chunks: list[bytes], reader=None) -> dict:
